@@ -189,6 +189,9 @@ def sync (v : SimVariant) (enc : Encoder) (s : Sim) : Sim :=
 /-- simulation.go:226 ShowCursor -/
 def setCursor (s : Sim) (x y : Int) : Sim := ({ s with cursorx := x, cursory := y }).showCursor
 
+/-- simulation.go:235 HideCursor: `s.ShowCursor(-1, -1)` -/
+def hideCursorApi (s : Sim) : Sim := s.setCursor (-1) (-1)
+
 /-- simulation.go:435 GetCursor -/
 def getCursor (s : Sim) : Int × Int × Bool := (s.cursorx, s.cursory, s.cursorvis)
 
